@@ -489,7 +489,12 @@ def main(argv):
 
     proved = n_ob > 0 and n_dis == n_ob and not proofs_undecided and not lost
     level = "proof" if proved else "other"
-    if n_ob == 0 and not proofs_undecided:
+    declared = next((getattr(m, "LEVEL") for m in mods if hasattr(m, "LEVEL")), None)
+    if declared is not None and n_dis == n_ob and not proofs_undecided and not lost:
+        # the property is claimed at a bounded level (e.g. fault enumeration); obligations it shares with other properties
+        # are discharged but do not raise the level of the claim
+        level = declared
+    elif n_ob == 0 and not proofs_undecided:
         level = next((getattr(m, "LEVEL") for m in mods if hasattr(m, "LEVEL")), "exploration")
     ev_total = sum(b["evaluated"] + b["cases_inside_evaluations"] for b in bounded_out)
     ev_distinct = sum(b["distinct"] for b in bounded_out)
